@@ -106,10 +106,23 @@ def obsS (s : Sess) : String :=
     | none => ""
     | some xs => s!" a{k}={fmtList xs} n{k}={xs.length} l{k}={fmtLast (Spec.Seq.getLast xs).2}"
 def fmtBool (b : Bool) : String := if b then "1" else "0"
-def physM (s : Sess) : String :=
+/-- the live slots of the buffer as the walker sees them -/
+def liveSlots (a : Arr) : List Nat := a.buf.take (min a.size a.buf.length)
+/-- physical view of one buffer: the full dump, or — in a sparse session between two `observe`s — first
+and last live slot and the checksum `h = (h ^ v) * 0x100000001b3` (64 bit, from `0xcbf29ce484222325`) -/
+def fmtBuf (k : Nat) (a : Arr) (quiet : Bool) : String :=
+  let xs := liveSlots a
+  if quiet then
+    let h := xs.foldl (fun (h : UInt64) v => (h ^^^ UInt64.ofNat v) * 0x100000001b3) 0xcbf29ce484222325
+    let fl := match xs.head?, xs.getLast? with
+      | some x, some y => s!"first{k}={x} last{k}={y} "
+      | _, _ => s!"first{k}=- last{k}=- "
+    s!"{fl}sum{k}={h.toNat}"
+  else s!"buf{k}={fmtList xs}"
+def physM (s : Sess) (quiet : Bool := false) : String :=
   let parts := (List.range NSLOT).filterMap fun k =>
     (s.arr k).map fun a =>
-      s!"size{k}={a.size} cap{k}={a.capacity} blk{k}={a.buf.length} g{k}={a.grow a.capacity} buf{k}={fmtList ((List.range (min a.size a.buf.length)).map a.buf.get)}"
+      s!"size{k}={a.size} cap{k}={a.capacity} blk{k}={a.buf.length} g{k}={a.grow a.capacity} {fmtBuf k a quiet}"
   if parts.isEmpty then "-" else
   let its := match s.it with | some (k, i) => s!" it={k}:{i.index}:{fmtBool i.lastRemoved}" | none => " it=-"
   let zs := match s.zit with | some (k, p, i) => s!" zit={k}:{p}:{i.index}:{fmtBool i.lastRemoved}" | none => " zit=-"
@@ -119,7 +132,7 @@ def invAll (s : Sess) : Bool := s.slots.all fun o => match o with | none => true
 def fin (s : Sess) (hdS hdM : String) (sweep : Bool := false) : Sess × String × String :=
   let oS := if s.sparse && !sweep then "" else obsS s
   let oM := if s.sparse && !sweep then "" else obsM s
-  (s, s!"S {hdS}{oS}", s!"M {hdM}{oM} | {physM s} | {fmtMem s.mem} | {fmtFlags (invAll s) s.mem}")
+  (s, s!"S {hdS}{oS}", s!"M {hdM}{oM} | {physM s (s.sparse && !sweep)} | {fmtMem s.mem} | {fmtFlags (invAll s) s.mem}")
 
 def fmtOut (st : Stat) (o : Option Nat) : String :=
   match o with | some v => s!"{fmtStat st} out={v}" | none => fmtStat st
